@@ -96,7 +96,11 @@ def _party(board, prim, me, limit, iters, depth, hold):
                     status = ST_TIMEOUT
                     break
             for _ in range(depth - 1):
-                prim.acquire()
+                if not prim.acquire(True, 30):   # re-entry must not block
+                    status = ST_TIMEOUT
+                    break
+            if status != ST_DONE:
+                break
             ver += 1
             put(_VER, ver)
 
